@@ -43,13 +43,17 @@ type sched struct {
 	cancel   *ssa.Function
 	// the scheduling loop (outer) and the per-stage loop (inner) of Schedule
 	outer, inner *an.Loop
-	outerFn      *ssa.Function         // function containing the scheduling loop (loopFn or a synchronous caller of it)
-	innerAnchor  *ssa.BasicBlock       // block of outerFn through which a pass enters the per-stage loop (its header, or the call that reaches it)
-	launch       *ssa.Go               // the go statement that starts a stage
-	launchFn     *ssa.Function         // function containing it
-	loopFn       *ssa.Function         // function containing the per-stage loop (launchFn or a synchronous caller of it)
-	body         *ssa.Function         // function run by the goroutine
-	bodyStage    ssa.Value             // the stage inside body (parameter or free variable)
+	outerFn      *ssa.Function   // function containing the scheduling loop (loopFn or a synchronous caller of it)
+	innerAnchor  *ssa.BasicBlock // block of outerFn through which a pass enters the per-stage loop (its header, or the call that reaches it)
+	launch       *ssa.Go         // the go statement that starts a stage
+	launchFn     *ssa.Function   // function containing it
+	loopFn       *ssa.Function   // function containing the per-stage loop (launchFn or a synchronous caller of it)
+	body         *ssa.Function   // function run by the goroutine
+	bodyStage    ssa.Value       // the stage inside body (parameter or free variable)
+	// … or, when the launch hands over an object built for this launch (a per-launch record with a
+	// *Stage field set to the loop's stage), that parameter of the body and the index of the field
+	carrier      *ssa.Parameter
+	carrierField int
 	runnerCalls  []ssa.CallInstruction // calls in body that synchronously reach Runner.Run
 	runStage     *ssa.Function         // function invoking Runner.Run
 	gate         *ssa.Function
@@ -267,6 +271,37 @@ func resolveSched(c *an.Ctx, rule string) *sched {
 		for _, fv := range s.body.FreeVars {
 			if an.TypeIs(an.Deref(fv.Type()), "pkg/scheduler", "Stage") {
 				s.bodyStage = fv
+			}
+		}
+	}
+	if s.bodyStage == nil {
+		for i, a := range s.launch.Call.Args {
+			al, ok := an.Resolve(a).(*ssa.Alloc)
+			if !ok || al.Parent() != s.launchFn || al.Referrers() == nil || i >= len(s.body.Params) {
+				continue
+			}
+			st, ok := an.Deref(al.Type()).Underlying().(*types.Struct)
+			if !ok {
+				continue
+			}
+			for _, r := range *al.Referrers() {
+				fa, ok := r.(*ssa.FieldAddr)
+				if !ok || fa.Referrers() == nil || !an.TypeIs(st.Field(fa.Field).Type(), "pkg/scheduler", "Stage") {
+					continue
+				}
+				nStores, fromLoop := 0, false
+				for _, rr := range *fa.Referrers() {
+					if sto, ok := rr.(*ssa.Store); ok && sto.Addr == ssa.Value(fa) {
+						nStores++
+						if an.SameValue(sto.Val, s.loopStage) {
+							fromLoop = true
+						}
+					}
+				}
+				if nStores == 1 && fromLoop {
+					s.carrier, s.carrierField = s.body.Params[i], fa.Field
+					s.bodyStage = s.body.Params[i]
+				}
 			}
 		}
 	}
@@ -559,6 +594,40 @@ func (s *sched) isBodyStage(v ssa.Value, st *an.State) bool {
 	cands := []ssa.Value{v}
 	if st != nil {
 		cands = append(cands, st.Root(v))
+	}
+	if s.carrier != nil {
+		// the stage field of the per-launch record (read in the body or in a method of the record inlined into it)
+		for _, cnd := range cands {
+			for _, r := range an.ResolveAll(cnd) {
+				u, ok := r.(*ssa.UnOp)
+				if !ok || u.Op != token.MUL {
+					continue
+				}
+				fa, ok := u.X.(*ssa.FieldAddr)
+				if !ok || fa.Field != s.carrierField {
+					continue
+				}
+				base := fa.X
+				if base == ssa.Value(s.carrier) || an.SameValue(base, s.carrier) || (st != nil && st.SameRoot(base, s.carrier)) {
+					return true
+				}
+				// a method of the record called from the body: its receiver is the record
+				if prm, ok := an.Resolve(base).(*ssa.Parameter); ok && prm.Parent() != s.body && types.Identical(prm.Type(), s.carrier.Type()) {
+					all := true
+					sites := s.p.CallSitesOf(prm.Parent())
+					idx := paramIndexOf(prm.Parent(), prm)
+					for _, cs := range sites {
+						if an.Outer(cs.Parent()) != s.body || cs.Common().IsInvoke() || idx >= len(cs.Common().Args) || !an.SameValue(cs.Common().Args[idx], s.carrier) {
+							all = false
+						}
+					}
+					if all && len(sites) > 0 {
+						return true
+					}
+				}
+			}
+		}
+		return false
 	}
 	var held []ssa.Value
 	held = append(held, s.bodyStage)
